@@ -249,6 +249,13 @@ def run_opt(case, options, context, labels):
                if t[k1] == v1 and t[k2] == v2]
         if opm.find(**{k1: v1, k2: v2}) != exp:
             raise Violation(f"find({k1}={v1!r}, {k2}={v2!r}) != {exp}")
+    # the same manager rebuilt from another product forgets the first one
+    opm.from_cartesian_product(zz_first=[3, 1, 2], zz_second="only")
+    if opm.ntasks != 3 or [opm.get_task(i).options for i in range(3)] != \
+            [{"zz_first": v, "zz_second": "only"} for v in (3, 1, 2)] or \
+            opm.find(zz_first=1) != [1]:
+        raise Violation("from_cartesian_product called a second time on the "
+                        "same manager does not replace the first product")
     multi = sum(1 for k in keys if len(lists[k]) >= 2)
     if any(not isinstance(v, list) for v in options.values()):
         labels.append("bare-scalar")
